@@ -2,7 +2,7 @@ SPECIFICATION Spec
 CONSTANTS
   NC = 1
   TocC <- TocShort
-  VarAlpha <- AlphaEvolve
+  VarAlpha <- AlphaStale
   BasicAlpha <- BasicOne
   MaxFree = 1
   MaxBasic = 1
@@ -13,7 +13,7 @@ CONSTANTS
   MaxFaults = 0
   MaxData = 2
   MaxLate = 1
-  TocAlts <- TocLonger
+  TocAlts = {}
   IdMod = 255
   Bugs = {"stale_layout"}
   WithSync = FALSE
